@@ -1,5 +1,6 @@
 import NfcVerif.Model.Term
 import NfcVerif.Model.TermMulti
+import NfcVerif.Model.Deact
 open NfcVerif NfcVerif.Term NfcVerif.TermMulti
 
 def kv (toks : List String) (k : String) : String :=
@@ -142,6 +143,50 @@ def handleMulti (t : List String) : String :=
   let per := (r.1.ths.zip r.2).map (fun (th, tr) => ",".intercalate tr ++ "|" ++ threadOut th)
   ";".intercalate per ++ "|" ++ showWorld r.1.w
 
+
+/-! ### NFC-DEP deactivation under the virtual clock (`NfcVerif.Model.Deact`) -/
+namespace DeactDrv
+open NfcVerif.Deact
+
+def parseReq (s : String) : Option (Req × Bool) :=
+  let ok := s.endsWith "1"
+  match (s.dropEnd 1).toString with
+  | "inf" => some (.inf, ok) | "atn" => some (.atn, ok) | "dsl" => some (.dsl, ok) | "rls" => some (.rls, ok)
+  | "other" => some (.other, ok) | _ => none
+
+def parseOut (s : String) : Out :=
+  match parseReq s with
+  | some (r, ok) => .frame r ok
+  | none =>
+    match s with
+    | "bad" => .badFrame | "none" => .none | "timeout" => .timeout | "tx" => .transmission | "comm" => .commError
+    | "esc-io" => .escape (.io 19) | _ => .escape .runtime
+
+def parseEvD (s : String) : Option Deact.Ev :=
+  match s.splitOn ":" with
+  | [o, d] => some ⟨parseOut o, d.toNat?.getD 0⟩
+  | _ => none
+
+def sentName : Sent → String
+  | .nothing => "-" | .atn => "atn" | .inf => "inf" | .rlsRes => "rlsres" | .dslRes => "dslres"
+  | .dslReq => "dslreq" | .rlsReq => "rlsreq"
+
+def showRes (r : Res) : String :=
+  let fin := match r.fin with | .returned => "ret" | .raised e => "exc " ++ e.name
+  fin ++ " " ++ toString r.tEnd ++ " " ++ ",".intercalate (r.trace.map (fun (s, t) => sentName s ++ ":" ++ toString t))
+
+def handleDeact (t : List String) : String :=
+  let cfg : Cfg := { D := nat t "D", lat := nat t "lat", retryBounded := flag t "rb", renew := flag t "renew" }
+  let script := ((kv t "script").splitOn ".").filterMap parseEvD
+  if kv t "role" == "initiator" then
+    showRes (initiatorDeactivate cfg (nat t "tinit") (flag t "release") script (nat t "t0"))
+  else
+    let cmd : Pending := match parseReq (kv t "cmd") with
+      | some (r, ok) => .req r ok
+      | none => if kv t "cmd" == "bad" then .bad else .no
+    showRes (targetDeactivate cfg cmd script (nat t "t0"))
+end DeactDrv
+
 def handle (line : String) : String :=
   let t := line.splitOn " "
   match t.head? with
@@ -152,6 +197,7 @@ def handle (line : String) : String :=
     let script := ((kv t "script").splitOn ".").filter (· ≠ "") |>.map parseAct
     trace c 12 (start c w) script []
   | some "multi" => handleMulti t
+  | some "deact" => DeactDrv.handleDeact t
   | some "svcstep" =>
     let p := match kv t "p" with
       | "accept" => SPt.listenAccept | "poll" => .servePoll | "recv" => .serveRecv | "send" => .serveSend
